@@ -122,6 +122,10 @@ def _run(pm: ProgramModel, ctx: Ctx, mb: ModelBuilder, cd: Codec) -> None:
     values.update({"float-17-digits": 0.30000000000000004, "float-third": 1 / 3, "float-next-after-one": 1.0000000000000002,
                    "int-beyond-2**53": 9007199254740993, "int-20-digits": 12345678901234567890, "negative-float": -0.5})
     # (floats that Python prints with an exponent - 1e+22, 1.5e-07 - are outside the property's "plain-decimal float")
+    # text that looks like syntax of the value language, inside containers and alone
+    values.update({"string-with-bracketed-int": "see [3]", "list-with-bracketed-int-string": ["see [3]", 2],
+                   "map-with-bracketed-int-string": {"k": "[3]"}, "list-with-braces-string": ["{a}", "x, y"],
+                   "list-of-look-alike-numbers": [1, 1.0, True, "1"]})
     values["map-with-key-abstract"] = {"abstract": None, "level": 2}
     values["map-with-key-abstract-true"] = {"kind": {"abstract": True}, "z": 1}
     values["list-of-maps-with-key-abstract"] = [{"abstract": None}, {"k": 1}]
@@ -132,6 +136,10 @@ def _run(pm: ProgramModel, ctx: Ctx, mb: ModelBuilder, cd: Codec) -> None:
         a._f["attributes"].append(mb.attribute("attr", v, a))
         a._f["attributes"].append(mb.attribute("second", 1, a))
         cd.report("VALUES", f"value:{vk}", cd.roundtrip(mb.model(root, [])), f"attribute value {v!r}", ("attribute",))
+    from ..codec import lookalike_values_model
+    cd.report("VALUES", "look-alike-values-across-features", cd.roundtrip(lookalike_values_model(mb)),
+              "one attribute name on several features with values that are equal but of different kinds (True / 1 / 1.0 / '1')",
+              ("attribute",))
     root = mb.feature("Root")
     a = mb.feature("A")
     mb.relation(root, [a], 1, 1)
